@@ -139,6 +139,37 @@ pub fn check_string(s: &str, obs: &mut Obs) {
         }
         obs.fp.u64(errs.len() as u64);
     }
+    // the file-level entry point reports the same syntax diagnostics, about the same text
+    let sample = s.starts_with('\u{feff}') || s.ends_with('\u{feff}') || (s.len() % 8 == 3);
+    if sample {
+        let r = guard(|| {
+            let direct = SourceFile::parse_check_lex(s);
+            let d: Vec<(TextRange, String)> = direct.errors().iter().map(|e| (e.range(), e.message().to_string())).collect();
+            let res = parse_source_string(s, Some("c12.qasm"));
+            let via: Option<(Vec<(TextRange, String)>, Option<String>)> = res.syntax_result().syntax_ast().map(|a| {
+                let errs = a.errors().iter().map(|e| (e.range(), e.message().to_string())).collect();
+                let text = if a.have_parse() { Some(a.syntax_node().text().to_string()) } else { None };
+                (errs, text)
+            });
+            (d, via)
+        });
+        match r {
+            Ok((d, Some((via, text)))) => {
+                if d != via {
+                    let first = d.iter().zip(via.iter()).find(|(a, b)| a != b).map(|(a, b)| format!("{a:?} vs {b:?}")).unwrap_or_else(|| format!("{} vs {} diagnostics", d.len(), via.len()));
+                    obs.violate("source-entry-point-diagnostics-differ/syntax".to_string(), format!("{s:?}: SourceFile::parse_check_lex and parse_source_string disagree: {first}"));
+                }
+                if let Some(t) = text {
+                    if t != s {
+                        obs.violate("source-entry-point-tree-is-about-another-text/syntax".to_string(), format!("{s:?}: the tree held by the result spells {:?}", crate::worker::truncate(&t, 200)));
+                    }
+                }
+                obs.count("source-entry-point-compared");
+            }
+            Ok((_, None)) => {}
+            Err(_) => obs.count("source-entry-point-skipped(analysis panicked)"),
+        }
+    }
     if clean {
         // semantic diagnostics
         let r = guard(|| {
